@@ -1,19 +1,19 @@
 (* C15 — Triangle normals, areas, barycentric weights, containment and sampling agree.
    Only statements here; each is closed by `exact <lemma>` from proofs/P_tri.v.
-   `sample` is the model of the code WITH fixes/C15-sample-zero-weight.diff (searchsorted side="right"). *)
+   `sample` is the model of the code in /repo, which contains the repair fixes/C15-sample-zero-weight.diff
+   (commit f5126ba, searchsorted side="right").
+   The theorems in the last block are definitional (they restate the shape of the model); their content is carried by
+   the traced ties and the correspondence. *)
 From Coq Require Import ZArith Reals List Bool.
 From PW Require Import Num NumR Vec NpList Result.
-From PW.model Require Import M_tri.
+From PW.model Require Import M_tri M_tri_spec.
 From PW.proofs Require Import P_tri.
 Import ListNotations.
 Local Open Scope R_scope.
 
 (* ---- normals and areas -------------------------------------------------------------------------------- *)
-(* un-normalised normal = cross product of the two edge vectors from the first vertex (any triangle) *)
-Theorem C15_normal_is_cross : forall t,
-  surface_normal_raw ROps t = vcross ROps (vsub ROps (tb t) (ta t)) (vsub ROps (tc t) (ta t)).
-Proof. exact normal_raw_is_cross. Qed.
-(* normalised normal = that cross product divided by its length: unit, and parallel to it *)
+(* normalised normal = the cross product of the two edge vectors from the first vertex divided by its length: unit, and
+   parallel to it *)
 Theorem C15_normal_unit_is_normalized_cross : forall t, nondegenerate t ->
   surface_normal_unit ROps t = Some (vnormalize ROps (tri_cross ROps t)) /\
   vnorm2 ROps (vnormalize ROps (tri_cross ROps t)) = 1 /\
@@ -45,16 +45,18 @@ Theorem C15_swap_negates : forall a b c,
    surface_area ROps (Tri c b a) = surface_area ROps (Tri a b c) /\
    surface_normal_raw ROps (Tri c b a) = vneg ROps (surface_normal_raw ROps (Tri a b c))).
 Proof. exact swap_negates. Qed.
-(* stacked forms are the single form row by row *)
-Theorem C15_stacked_is_map_single : forall ts k,
-  nth_error (surface_normals_raw ROps ts) k = option_map (surface_normal_raw ROps) (nth_error ts k) /\
-  nth_error (surface_normals_unit ROps ts) k = option_map (surface_normal_unit ROps) (nth_error ts k) /\
-  nth_error (surface_areas ROps ts) k = option_map (surface_area ROps) (nth_error ts k).
-Proof. exact stacked_is_map_single. Qed.
 
 (* ---- barycentric weights ------------------------------------------------------------------------------- *)
+(* (float arrays, every triangle: on a zero-area triangle the code's epsilon guard gives the weights (1,0,0).  On
+   INTEGER arrays the guard is lost for zero-area triangles and the row is NaN -- next theorem; zero-area triangles
+   are outside the property's domain for barycentric weights) *)
 Theorem C15_bary_sum_one : forall t p, vsum3 (bary ROps t p) = 1.
 Proof. exact bary_sum_one. Qed.
+(* the same call on int64 arrays: identical for non-degenerate triangles, a NaN row (None) for zero-area ones *)
+Theorem C15_bary_integer_arrays : forall t p,
+  (nondegenerate t -> bary_intarray ROps t p = Some (bary ROps t p)) /\
+  (~ nondegenerate t -> bary_intarray ROps t p = None).
+Proof. exact bary_intarray_spec. Qed.
 (* the weights reconstruct the orthogonal projection of p onto the triangle's plane ... *)
 Theorem C15_bary_reconstructs_projection : forall t p, nondegenerate t ->
   bary_combine ROps t (bary ROps t p) = plane_projection t p.
@@ -65,28 +67,28 @@ Theorem C15_projection_is_orthogonal_projection : forall t p, nondegenerate t ->
   (exists k, plane_projection t p = vsub ROps p (vscale ROps k (tri_cross ROps t))) /\
   (coplanar t p -> plane_projection t p = p).
 Proof. exact projection_is_orthogonal_projection. Qed.
-Theorem C15_bary_pairs_is_map_single : forall ts ps k t p,
-  nth_error ts k = Some t -> nth_error ps k = Some p ->
-  nth_error (bary_pairs ROps ts ps) k = Some (bary ROps t p).
-Proof. exact bary_pairs_is_map_single. Qed.
 
 (* ---- containment ------------------------------------------------------------------------------------------ *)
 Theorem C15_contains_iff_weights_nonneg : forall t p, nondegenerate t -> coplanar t p ->
   (tri_contains ROps (ta t) (tb t) (tc t) p = true <->
    0 <= vx (bary ROps t p) /\ 0 <= vy (bary ROps t p) /\ 0 <= vz (bary ROps t p)).
 Proof. exact contains_iff_weights_nonneg_coplanar. Qed.
-(* the three edge tests are coplanar_points_are_on_same_side_of_line, which decides the sign of the product of
-   the two cross products with the edge direction *)
-Theorem C15_contains_is_three_same_side : forall a b c p,
-  tri_contains ROps a b c p =
-  (same_side ROps b c p a && same_side ROps a c p b) && same_side ROps a b p c.
-Proof. exact contains_is_three_same_side. Qed.
+(* each edge test (coplanar_points_are_on_same_side_of_line) decides the sign of the product of the two cross products
+   with the edge direction *)
 Theorem C15_same_side_spec : forall a b p1 p2,
   same_side ROps a b p1 p2 = true <->
   0 <= vdot ROps (vcross ROps (vsub ROps b a) (vsub ROps p1 a)) (vcross ROps (vsub ROps b a) (vsub ROps p2 a)).
 Proof. exact same_side_spec. Qed.
 
 (* ---- sampling (a function of the drawn numbers us, abs) --------------------------------------------------- *)
+(* on the property's domain the call succeeds and returns exactly num_samples rows: draws in [0,1), at least one
+   triangle, and either supplied weights (one per triangle, non-negative, not all zero) or the default area weights with
+   at least one triangle of non-zero area *)
+Theorem C15_sample_succeeds : forall ts us abs, ts <> [] -> face_draws us -> length us = length abs ->
+  (forall ws, length ws = length ts -> nonneg_weights ws -> 0 < Rsum ws ->
+     exists l, sample ROps ts (Some ws) us abs = Ok l /\ length l = length us) /\
+  (Exists nondegenerate ts -> exists l, sample ROps ts None us abs = Ok l /\ length l = length us).
+Proof. exact sample_succeeds. Qed.
 (* exactly num_samples outputs; sample k is the point of face `face_choice ws u_k` given by the k-th pair *)
 Theorem C15_sample_count_and_rows : forall ts weights us abs l, ts <> [] -> length us = length abs ->
   sample ROps ts weights us abs = Ok l ->
@@ -104,10 +106,10 @@ Theorem C15_sample_inside_named_face : forall ts weights us abs l p i,
 Proof. exact sample_inside_named_face. Qed.
 Theorem C15_sample_empty : forall weights us abs, sample ROps [] weights us abs = Ok [].
 Proof. exact sample_empty. Qed.
-(* identical generator state = identical draws = identical output *)
-Theorem C15_sample_deterministic : forall ts weights us abs us' abs',
-  us = us' -> abs = abs' -> sample ROps ts weights us abs = sample ROps ts weights us' abs'.
-Proof. exact sample_deterministic. Qed.
+(* "identical output for identical generator state": `sample` is modelled as a FUNCTION of the drawn numbers; that the
+   code's output depends on nothing else is the modelling assumption itself, validated on every run by the
+   correspondence (draws supplied through a Generator subclass) and by the oracle (two runs of the default / an equally
+   seeded generator give identical output).  No theorem is stated for it (it would read f x = f x). *)
 (* frequency proportional to weight, as a statement about the map: face i is chosen exactly when u * total lies in
    [w_0 + ... + w_{i-1}, w_0 + ... + w_i), an interval of length w_i *)
 Theorem C15_sample_face_interval : forall ws u i, nonneg_weights ws -> 0 < Rsum ws -> 0 <= u < 1 ->
@@ -163,6 +165,28 @@ Theorem C15_normalized_edge_is_sorted_same_edge : forall e,
   (fst (sort2 e) <= snd (sort2 e))%Z /\ (sort2 e = e \/ sort2 e = (snd e, fst e)).
 Proof. exact sort2_spec. Qed.
 
+(* ---- definitional: pins the shape of the model; the content is carried by the traced ties / correspondence ---- *)
+(* un-normalised normal = cross product of the two edge vectors from the first vertex (any triangle) *)
+Theorem C15_normal_is_cross : forall t,
+  surface_normal_raw ROps t = vcross ROps (vsub ROps (tb t) (ta t)) (vsub ROps (tc t) (ta t)).
+Proof. exact normal_raw_is_cross. Qed.
+(* stacked forms are the single form row by row *)
+Theorem C15_stacked_is_map_single : forall ts k,
+  nth_error (surface_normals_raw ROps ts) k = option_map (surface_normal_raw ROps) (nth_error ts k) /\
+  nth_error (surface_normals_unit ROps ts) k = option_map (surface_normal_unit ROps) (nth_error ts k) /\
+  nth_error (surface_areas ROps ts) k = option_map (surface_area ROps) (nth_error ts k).
+Proof. exact stacked_is_map_single. Qed.
+Theorem C15_bary_pairs_is_map_single : forall ts ps k t p,
+  nth_error ts k = Some t -> nth_error ps k = Some p ->
+  nth_error (bary_pairs ROps ts ps) k = Some (bary ROps t p).
+Proof. exact bary_pairs_is_map_single. Qed.
+(* the three edge tests are coplanar_points_are_on_same_side_of_line, which decides the sign of the product of
+   the two cross products with the edge direction *)
+Theorem C15_contains_is_three_same_side : forall a b c p,
+  tri_contains ROps a b c p =
+  (same_side ROps b c p a && same_side ROps a c p b) && same_side ROps a b p c.
+Proof. exact contains_is_three_same_side. Qed.
+
 (* non-vacuity: a non-degenerate triangle, admissible weights with a zero entry *)
 Example C15_nondegenerate_inhabited : nondegenerate (Tri (V3 0 0 0) (V3 1 0 0) (V3 0 1 0)).
 Proof. exact nondegenerate_example. Qed.
@@ -174,7 +198,7 @@ Definition C15_all := (C15_normal_is_cross, C15_normal_unit_is_normalized_cross,
   C15_stacked_is_map_single, C15_bary_sum_one, C15_bary_reconstructs_projection,
   C15_projection_is_orthogonal_projection, C15_bary_pairs_is_map_single, C15_contains_iff_weights_nonneg,
   C15_contains_is_three_same_side, C15_same_side_spec, C15_sample_count_and_rows, C15_sample_inside_named_face,
-  C15_sample_empty, C15_sample_deterministic, C15_sample_face_interval, C15_sample_face_preimage,
+  C15_sample_empty, C15_sample_succeeds, C15_bary_integer_arrays, C15_sample_face_interval, C15_sample_face_preimage,
   C15_sample_never_zero_weight,
   C15_area_weights_admissible, C15_left_rule_picks_zero_weight_face, C15_quads_to_tris_winding,
   C15_quad_split_area_vector, C15_edges_each_once, C15_normalized_edge_is_sorted_same_edge).
